@@ -16,6 +16,13 @@ use crate::{
 
 /// Simulated steps (polls at poll_every = 1) allowed per run.
 pub const STEP_BUDGET: u64 = 300_000;
+/// ... and for the full-size real contracts of the thorough tier.
+pub const BIG_STEP_BUDGET: u64 = 200_000_000;
+
+thread_local! {
+    static BUDGET: std::cell::Cell<u64> = std::cell::Cell::new(STEP_BUDGET);
+    static BIG: Corpus = Corpus::load("/verif/corpus_big");
+}
 
 pub struct C02Check;
 pub static C02: C02Check = C02Check;
@@ -103,7 +110,7 @@ pub fn signature(code: &[u8], knobs: &Knobs, a: &Sched, b: &Sched) -> (String, V
         let mut sc = Scenario::simple(code.to_vec());
         sc.knobs = knobs.clone();
         sc.sched = s.clone();
-        sc.wd = WdPlan::budget(1, STEP_BUDGET);
+        sc.wd = WdPlan::budget(1, BUDGET.with(std::cell::Cell::get));
         sim::run(&sc, &opts)
     };
     let oa = mk(a);
@@ -174,7 +181,7 @@ fn first_divergence(code: &[u8], knobs: &Knobs, scheds: &[Sched], res: Option<&m
         sc.sched = s.clone();
         // A step budget instead of the lazy watchdog: a run that does not
         // halt is C03's business and is left out of the comparison here.
-        sc.wd = WdPlan::budget(1, STEP_BUDGET);
+        sc.wd = WdPlan::budget(1, BUDGET.with(std::cell::Cell::get));
         let out = sim::run(&sc, &opts);
         if out.budget_exhausted {
             if let Some(r) = res.as_deref_mut() {
@@ -274,6 +281,39 @@ impl Check for C02Check {
     fn run_case(&self, idx: u64, seed: u64, tier: Tier) -> CaseResult {
         let mut res = CaseResult::default();
         let mut r = Rng::new(seed);
+        // Thorough tier: the first cases are the full-size real contracts of
+        // the repository's own test-suite, unmodified, default limits
+        // (permissive errors on, as the suite runs the one that needs it),
+        // under a reference schedule and four others.
+        let n_big = BIG.with(|c| c.items.len()) as u64;
+        if tier == Tier::Thorough && idx < n_big {
+            let (name, code) = BIG.with(|c| c.items[idx as usize].clone());
+            let mut knobs = Knobs::default();
+            knobs.permissive = true;
+            let scheds = vec![
+                Sched::natural(0),
+                Sched::natural(derive(seed, 1)),
+                Sched::adversarial(1, 1000, MENU_REVERSE),
+                Sched::adversarial(3, 1000, MENU_KIND_DESC),
+                Sched::adversarial(derive(seed, 2), 500, MENU_ALL),
+            ];
+            BUDGET.with(|b| b.set(BIG_STEP_BUDGET));
+            let div = first_divergence(&code, &knobs, &scheds, Some(&mut res));
+            BUDGET.with(|b| b.set(STEP_BUDGET));
+            res.probe("workload_full_size_real_contract");
+            if let Some(ix) = div {
+                BUDGET.with(|b| b.set(BIG_STEP_BUDGET));
+                let (sig, detail) = signature(&code, &knobs, &scheds[0], &scheds[ix]);
+                BUDGET.with(|b| b.set(STEP_BUDGET));
+                res.violations.push(Violation {
+                    property:  "C02".into(),
+                    signature: sig,
+                    detail:    json!({"case": idx, "seed": seed, "contract": name, "program_len": code.len(), "schedule_a": scheds[0].label(), "schedule_b": scheds[ix].label(), "explanation": detail}),
+                    replay:    json!({"check": "C02", "kind": "pair", "code": hex::encode(&code), "knobs": knobs, "sched_a": scheds[0], "sched_b": scheds[ix], "big": true}),
+                });
+            }
+            return res;
+        }
         let (code, family) = gen_program(&mut r, tier);
         let knobs = workload::mixed_knobs(&mut r, 70);
         let scheds = schedules(seed, tier);
@@ -311,6 +351,9 @@ impl Check for C02Check {
         let a: Sched = serde_json::from_value(payload["sched_a"].clone()).map_err(|e| e.to_string())?;
         let b: Sched = serde_json::from_value(payload["sched_b"].clone()).map_err(|e| e.to_string())?;
         let scheds = [a.clone(), b.clone()];
+        if payload["big"].as_bool() == Some(true) {
+            BUDGET.with(|x| x.set(BIG_STEP_BUDGET));
+        }
         if first_divergence(&code, &knobs, &scheds, None).is_none() {
             return Ok(None);
         }
